@@ -65,7 +65,7 @@ def gen(ctx: common.Ctx, n_hist: int, steps: tuple[int, int], explore: bool = Fa
         h = histgen.history((*tag, k), n_steps=n, n_modules=r.randint(3, 7), cycles=not explore,
                             ops=SAFE_OPS if explore else (histgen.CONTENT_OPS if stream == "content" else None),
                             packages=not explore, import_forms=["import", "from", "fromas"] if explore else None,
-                            kinds=SAFE_KINDS if explore else None)
+                            kinds=SAFE_KINDS if explore else None, revert_p=0.0 if explore else 0.12)
         modes = ["check"] + [r.choice(["check", "recheck", "recheck"] + (["recheck-explicit"] if follow != "normal" else []))
                              for _ in range(n - 1)]
         flags = [] if follow == "normal" else [f"--follow-imports={follow}"]
@@ -163,7 +163,7 @@ def run(ctx: common.Ctx) -> None:
                                         "targets_reprocessed": ntarg, "first_line": st["out"].splitlines()[0][:140]})
                         continue
                     key = classify_diff(st)
-                    if key not in ("only_once-note-placement", "while-blocked:daemon-omits-nonblocking-diagnostics"):
+                    if key not in ("only_once-note-placement", "while-blocked:daemon-omits-nonblocking-diagnostics", "order-within-file"):
                         key = histgen.op_class(ops) + "|" + key
                     ctx.violation(key, f"daemon response differs from full run at step {st['i']} (ops {ops}, mode {st['mode']})",
                                   {"task": t, "step": st["i"], "daemon": st["out"], "oracle": st["oracle"]["out"],
